@@ -151,6 +151,8 @@ def random_op(rng):
         op = dict(kind='ipv4')
         x = rng.random()
         nl = rng.sample(PFX, rng.choice([1, 1, 2, 3]))
+        if rng.random() < 0.1:
+            nl = nl + [nl[0]]            # the same prefix named twice in one message: still one route
         if x < 0.55:
             # now and then prefixes announced without any path attribute (a peer can send that; the REST side refuses it)
             # or with an attribute value the agent cannot encode (send side: 'failed when send this message out')
